@@ -28,7 +28,9 @@ import (
 	"sync/atomic"
 	"syscall"
 	"time"
+	"unsafe"
 
+	"github.com/edutko/decipher/internal/file"
 	"golang.org/x/crypto/ssh"
 )
 
@@ -85,6 +87,8 @@ func dumpC10(out map[string]any) {
 	if _, ok := res["version"]; !ok {
 		panic("C10 dump: var Version = <string literal> not found in cmd/decipher/main.go")
 	}
+	// internal/file/info.go: the cap of the read loop, from the running code
+	res["max_read_size"] = int64(file.MaxReadSize)
 	out["walk_consts"] = res
 }
 
@@ -98,13 +102,35 @@ const (
 	kLinkNone
 	kFifo
 	kSock
+	kLinkOther // a link whose resolved target is none of the above: see oFifo...
+	kNoPerm    // a regular file without any permission bit (the run is made without root's privileges)
 )
 
+// resolved target kinds of kLinkOther
+const (
+	oFifo = iota
+	oSock
+	oChar
+	oLoop
+	oNoPerm
+)
+
+// fnode.how says how the entry is made; the model only sees what the entry resolves to.
+//
+//	links:  "" or "abs" absolute target outside the scanned tree; "rel" relative target (../../t/x);
+//	        "chain" link -> absolute link -> relative link -> target; "sib:NAME" the target is the
+//	        entry NAME of the same directory (relative target NAME);
+//	        kLinkDir "up": target ".."; oLoop "self": the link names itself, "pair": a -> b -> a;
+//	        oChar "null", "zero", "chain-null": /dev/null, /dev/zero, link -> link -> /dev/null
+//	kReg:   "hard:NAME" a second name (hard link) of the regular file NAME of the same directory;
+//	        "hardout" a second name of a file outside the scanned tree
 type fnode struct {
 	kind     int
 	name     string
 	content  []byte
 	children []*fnode
+	target   int
+	how      string
 }
 
 func reg(name string, content []byte) *fnode { return &fnode{kind: kReg, name: name, content: content} }
@@ -115,14 +141,48 @@ func lfile(name string, content []byte) *fnode {
 func ldir(name string, ch ...*fnode) *fnode { return &fnode{kind: kLinkDir, name: name, children: ch} }
 func other(kind int, name string) *fnode    { return &fnode{kind: kind, name: name} }
 
+func lother(name string, target int, how string) *fnode {
+	return &fnode{kind: kLinkOther, name: name, target: target, how: how}
+}
+func (n *fnode) with(how string) *fnode { n.how = how; return n }
+
 func (n *fnode) sx() Sx {
+	var out SL
 	switch n.kind {
 	case kReg, kLinkFile:
-		return SL{I(n.kind), S(n.name), SB(n.content)}
+		out = SL{I(n.kind), S(n.name), SB(n.content)}
 	case kDir, kLinkDir:
-		return SL{I(n.kind), S(n.name), listSx(n.children)}
+		out = SL{I(n.kind), S(n.name), listSx(n.children)}
+	case kLinkOther:
+		out = SL{I(n.kind), S(n.name), I(n.target)}
+	default:
+		out = SL{I(n.kind), S(n.name)}
 	}
-	return SL{I(n.kind), S(n.name)}
+	if n.how != "" {
+		out = append(out, S(n.how))
+	}
+	return out
+}
+
+// hasKind reports whether the listing contains, at any depth, a node satisfying f.
+func hasNode(l []*fnode, f func(*fnode) bool) bool {
+	for _, n := range l {
+		if n == nil {
+			continue
+		}
+		if f(n) || hasNode(n.children, f) {
+			return true
+		}
+	}
+	return false
+}
+
+// an entry on which a scan that opens it would wait or read without end
+func blockingCandidate(n *fnode) bool {
+	return n.kind == kFifo || n.kind == kLinkOther && (n.target == oFifo || n.target == oChar)
+}
+func needsUnpriv(n *fnode) bool {
+	return n.kind == kNoPerm || n.kind == kLinkOther && n.target == oNoPerm
 }
 
 func listSx(l []*fnode) Sx {
@@ -138,28 +198,116 @@ type wcase struct {
 	tree      []*fnode // listing of the working directory
 	argv      []string
 	stdin     []byte
-	stdinMode int  // 0 none (/dev/null), 1 pipe, 2 regular file
+	stdinMode int  // see the dXxx constants
+	pieces    []int // lengths of the pieces the writer writes (sum = len(stdin)); nil: all at once
+	pauses    []int // milliseconds the writer sleeps before each piece
+	lateClose int   // milliseconds between the last piece and the close
 	fdrel     bool // tree must be created with directory-relative system calls (paths beyond PATH_MAX)
 	waitsOn   bool // an argument names a FIFO: the run is expected to wait for a writer; short timeout
 }
 
+// how the bytes reach standard input
+const (
+	dNone     = 0 // /dev/null
+	dExecPipe = 1 // os/exec's pipe: one writer goroutine copies the bytes as fast as the pipe takes them
+	dFile     = 2 // a regular file opened for reading
+	dPipe     = 3 // a pipe written piece by piece with pauses, closed lateClose ms after the last piece
+	dSocket   = 4 // one end of a socketpair(AF_UNIX, SOCK_STREAM), written like dPipe
+	dPty      = 5 // the slave side of a pseudo-terminal in canonical mode; end of input is ^D
+)
+
 type c10env struct {
 	c       *Ctx
 	root    string
+	pubRoot string // world-searchable scratch directory with a copy of the binary, for runs without privileges ("" if none)
+	pubBin  string
 	mu      sync.Mutex
 	cache   map[string][2]Sx // (path \x00 content) -> (stdout, exit)
 	blocked int32
 	seq     int32
 }
 
+// mkSocket makes a socket inode at p: bind under a short name (sun_path is limited to 108
+// bytes), then move into place.
+func mkSocket(p, tdir string, tn *int) error {
+	*tn++
+	short := filepath.Join(tdir, fmt.Sprintf("s%d", *tn))
+	if len(short) > 100 {
+		return syscall.Mknod(p, syscall.S_IFSOCK|0o644, 0)
+	}
+	ln, err := net.Listen("unix", short)
+	if err != nil {
+		return err
+	}
+	ln.(*net.UnixListener).SetUnlinkOnClose(false)
+	ln.Close()
+	return os.Rename(short, p)
+}
+
+// mkLink makes the symbolic link p (an entry of dirPath) lead to target in the way n.how says.
+func mkLink(p, dirPath, tdir, target string, how string, tn *int) error {
+	switch how {
+	case "rel":
+		rel, err := filepath.Rel(dirPath, target)
+		if err != nil {
+			return err
+		}
+		return os.Symlink(rel, p)
+	case "chain":
+		*tn++
+		c1 := filepath.Join(tdir, fmt.Sprintf("c%da", *tn))
+		c2 := filepath.Join(tdir, fmt.Sprintf("c%db", *tn))
+		if err := os.Symlink(target, c2); err != nil {
+			return err
+		}
+		if err := os.Symlink(filepath.Base(c2), c1); err != nil {
+			return err
+		}
+		return os.Symlink(c1, p)
+	}
+	return os.Symlink(target, p)
+}
+
 // materialise creates the listing under dirPath; link targets go to tdir.
 func (e *c10env) materialise(dirPath, tdir string, l []*fnode, tn *int) error {
+	var later []*fnode // hard links to entries of the same directory: after their targets exist
 	for _, n := range l {
+		if n == nil {
+			continue
+		}
 		p := filepath.Join(dirPath, n.name)
 		// filepath.Join cleans; names here never contain separators or dots-only elements
+		if strings.HasPrefix(n.how, "sib:") && n.kind != kReg {
+			// a link to an entry of the same directory, by its bare name
+			if err := os.Symlink(strings.TrimPrefix(n.how, "sib:"), p); err != nil {
+				return err
+			}
+			continue
+		}
 		switch n.kind {
 		case kReg:
-			if err := os.WriteFile(p, n.content, 0o644); err != nil {
+			switch {
+			case strings.HasPrefix(n.how, "hard:"):
+				later = append(later, n)
+			case n.how == "hardout":
+				*tn++
+				t := filepath.Join(tdir, fmt.Sprintf("h%d", *tn))
+				if err := os.WriteFile(t, n.content, 0o644); err != nil {
+					return err
+				}
+				if err := os.Link(t, p); err != nil {
+					return err
+				}
+			default:
+				if err := os.WriteFile(p, n.content, 0o644); err != nil {
+					return err
+				}
+			}
+		case kNoPerm:
+			if err := os.WriteFile(p, []byte("1EC9414C-232A-6B00-B3C8-9E6BDECED846"), 0o644); err != nil {
+				return err
+			}
+			if err := os.Chmod(p, 0); err != nil {
 				return err
 			}
 		case kDir:
@@ -175,10 +323,16 @@ func (e *c10env) materialise(dirPath, tdir string, l []*fnode, tn *int) error {
 			if err := os.WriteFile(t, n.content, 0o644); err != nil {
 				return err
 			}
-			if err := os.Symlink(t, p); err != nil {
+			if err := mkLink(p, dirPath, tdir, t, n.how, tn); err != nil {
 				return err
 			}
 		case kLinkDir:
+			if n.how == "up" {
+				if err := os.Symlink("..", p); err != nil {
+					return err
+				}
+				break
+			}
 			*tn++
 			t := filepath.Join(tdir, fmt.Sprintf("d%d", *tn))
 			if err := os.Mkdir(t, 0o755); err != nil {
@@ -187,11 +341,55 @@ func (e *c10env) materialise(dirPath, tdir string, l []*fnode, tn *int) error {
 			if err := e.materialise(t, tdir, n.children, tn); err != nil {
 				return err
 			}
-			if err := os.Symlink(t, p); err != nil {
+			if err := mkLink(p, dirPath, tdir, t, n.how, tn); err != nil {
 				return err
 			}
 		case kLinkNone:
-			if err := os.Symlink(filepath.Join(tdir, "missing"), p); err != nil {
+			if err := mkLink(p, dirPath, tdir, filepath.Join(tdir, "missing"), n.how, tn); err != nil {
+				return err
+			}
+		case kLinkOther:
+			*tn++
+			t := filepath.Join(tdir, fmt.Sprintf("o%d", *tn))
+			how := n.how
+			switch n.target {
+			case oFifo:
+				if err := syscall.Mkfifo(t, 0o644); err != nil {
+					return err
+				}
+			case oSock:
+				if err := mkSocket(t, tdir, tn); err != nil {
+					return err
+				}
+			case oNoPerm:
+				if err := os.WriteFile(t, []byte("1EC9414C-232A-6B00-B3C8-9E6BDECED846"), 0o644); err != nil {
+					return err
+				}
+				if err := os.Chmod(t, 0); err != nil {
+					return err
+				}
+			case oChar:
+				t = "/dev/null"
+				if how == "zero" {
+					t = "/dev/zero"
+				}
+				if how == "chain-null" {
+					how = "chain"
+				} else {
+					how = "abs"
+				}
+			case oLoop:
+				if how == "pair" {
+					// p -> t -> p
+					if err := os.Symlink(p, t); err != nil {
+						return err
+					}
+					how = "abs"
+				} else {
+					t, how = n.name, "abs" // the link names itself
+				}
+			}
+			if err := mkLink(p, dirPath, tdir, t, how, tn); err != nil {
 				return err
 			}
 		case kFifo:
@@ -199,24 +397,14 @@ func (e *c10env) materialise(dirPath, tdir string, l []*fnode, tn *int) error {
 				return err
 			}
 		case kSock:
-			// bind under a short name (sun_path is limited to 108 bytes), then move into place
-			*tn++
-			short := filepath.Join(tdir, fmt.Sprintf("s%d", *tn))
-			if len(short) > 100 {
-				if err := syscall.Mknod(p, syscall.S_IFSOCK|0o644, 0); err != nil {
-					return err
-				}
-				break
-			}
-			ln, err := net.Listen("unix", short)
-			if err != nil {
+			if err := mkSocket(p, tdir, tn); err != nil {
 				return err
 			}
-			ln.(*net.UnixListener).SetUnlinkOnClose(false)
-			ln.Close()
-			if err := os.Rename(short, p); err != nil {
-				return err
-			}
+		}
+	}
+	for _, n := range later {
+		if err := os.Link(filepath.Join(dirPath, strings.TrimPrefix(n.how, "hard:")), filepath.Join(dirPath, n.name)); err != nil {
+			return err
 		}
 	}
 	return nil
@@ -269,47 +457,215 @@ type runObs struct {
 func (o runObs) sx() Sx { return SL{SB(o.stdout), I(o.exit), Bool(o.blocked), Bool(o.crashed)} }
 
 func (e *c10env) runBin(cwd string, argv []string, stdin []byte, stdinMode int) runObs {
-	return e.runBinT(cwd, argv, stdin, stdinMode, 0)
+	return e.run(&runSpec{cwd: cwd, argv: argv, stdin: stdin, mode: stdinMode})
 }
 
-func (e *c10env) runBinT(cwd string, argv []string, stdin []byte, stdinMode int, short time.Duration) runObs {
+type runSpec struct {
+	cwd       string
+	argv      []string
+	stdin     []byte
+	mode      int
+	pieces    []int
+	pauses    []int
+	lateClose int
+	deadline  time.Duration // 0: the default
+	expected  bool          // blocking is the expected outcome (a FIFO named as an argument)
+	unpriv    bool          // run as an unprivileged user (the harness is root)
+	bin       string
+}
+
+// openPty returns the two sides of a new pseudo-terminal; the slave is put into canonical mode
+// without echo, signals or any input/output translation, end of file is ^D.
+func openPty() (master, slave *os.File, err error) {
+	m, err := os.OpenFile("/dev/ptmx", os.O_RDWR|syscall.O_NOCTTY, 0)
+	if err != nil {
+		return nil, nil, err
+	}
+	ioctl := func(fd uintptr, req uintptr, arg unsafe.Pointer) error {
+		if _, _, en := syscall.Syscall(syscall.SYS_IOCTL, fd, req, uintptr(arg)); en != 0 {
+			return en
+		}
+		return nil
+	}
+	var n uint32
+	var unlock int32
+	if err := ioctl(m.Fd(), syscall.TIOCGPTN, unsafe.Pointer(&n)); err != nil {
+		m.Close()
+		return nil, nil, err
+	}
+	if err := ioctl(m.Fd(), syscall.TIOCSPTLCK, unsafe.Pointer(&unlock)); err != nil {
+		m.Close()
+		return nil, nil, err
+	}
+	sl, err := os.OpenFile(fmt.Sprintf("/dev/pts/%d", n), os.O_RDWR|syscall.O_NOCTTY, 0)
+	if err != nil {
+		m.Close()
+		return nil, nil, err
+	}
+	var t syscall.Termios
+	if err := ioctl(sl.Fd(), syscall.TCGETS, unsafe.Pointer(&t)); err == nil {
+		t.Iflag, t.Oflag, t.Lflag = 0, 0, syscall.ICANON
+		t.Cc[syscall.VEOF] = 4
+		err = ioctl(sl.Fd(), syscall.TCSETS, unsafe.Pointer(&t))
+	}
+	if err != nil {
+		m.Close()
+		sl.Close()
+		return nil, nil, err
+	}
+	return m, sl, nil
+}
+
+var ptyOnce sync.Once
+var ptyOK bool
+
+// ptyAvailable: a pseudo-terminal can be opened and carries a line and an end of file
+func ptyAvailable() bool {
+	ptyOnce.Do(func() {
+		m, sl, err := openPty()
+		if err != nil {
+			return
+		}
+		defer m.Close()
+		defer sl.Close()
+		done := make(chan bool, 1)
+		go func() {
+			buf := make([]byte, 16)
+			n, _ := sl.Read(buf)
+			n2, _ := sl.Read(buf[n:])
+			done <- n == 3 && n2 == 0
+		}()
+		m.Write([]byte("ab\n\x04"))
+		select {
+		case ok := <-done:
+			ptyOK = ok
+		case <-time.After(2 * time.Second):
+		}
+	})
+	return ptyOK
+}
+
+// feed writes the bytes the way the case says and closes the writing side.
+func (sp *runSpec) feed(w *os.File) {
+	pieces := sp.pieces
+	if pieces == nil {
+		pieces = []int{len(sp.stdin)}
+	}
+	off := 0
+	for i, n := range pieces {
+		if i < len(sp.pauses) && sp.pauses[i] > 0 {
+			time.Sleep(time.Duration(sp.pauses[i]) * time.Millisecond)
+		}
+		if off+n > len(sp.stdin) {
+			n = len(sp.stdin) - off
+		}
+		if _, err := w.Write(sp.stdin[off : off+n]); err != nil {
+			break // the reader has gone
+		}
+		off += n
+	}
+	if sp.mode == dPty {
+		// end of input on a terminal: ^D at the beginning of a line (a first ^D ends an unfinished line)
+		if len(sp.stdin) > 0 && sp.stdin[len(sp.stdin)-1] != '\n' {
+			w.Write([]byte{4})
+		}
+		w.Write([]byte{4})
+	}
+	if sp.lateClose > 0 {
+		time.Sleep(time.Duration(sp.lateClose) * time.Millisecond)
+	}
+	if sp.mode != dPty {
+		w.Close()
+	}
+}
+
+func (e *c10env) run(sp *runSpec) runObs {
 	// generous: an ordinary run takes milliseconds; only a run that really blocks gets here,
 	// even on a heavily loaded machine
 	to := 30 * time.Second
 	if atomic.LoadInt32(&e.blocked) >= 2 {
 		to = 10 * time.Second // a blocking defect is established; do not spend 30 s on every further case
 	}
-	if short > 0 {
-		to = short // the case names a FIFO as an argument: blocking is the expected outcome
+	if sp.deadline > 0 {
+		// the case holds an entry on which a careless scan waits (FIFO, link to a FIFO or to a
+		// device) or names a FIFO as an argument: a hang is an outcome to report, soon
+		to = sp.deadline
+		if !sp.expected && atomic.LoadInt32(&e.blocked) >= 2 {
+			to = sp.deadline / 2
+		}
 	}
 	ctx, cancel := context.WithTimeout(context.Background(), to)
 	defer cancel()
-	cmd := exec.CommandContext(ctx, e.c.Bin)
-	cmd.Args = append([]string{c10Argv0}, argv...) // a fixed os.Args[0]: case inputs must not depend on the scratch directory
-	cmd.Dir = cwd
+	bin := e.c.Bin
+	if sp.bin != "" {
+		bin = sp.bin
+	}
+	cmd := exec.CommandContext(ctx, bin)
+	cmd.Args = append([]string{c10Argv0}, sp.argv...) // a fixed os.Args[0]: case inputs must not depend on the scratch directory
+	cmd.Dir = sp.cwd
 	cmd.Env = append(os.Environ(), "LC_ALL=en_US.UTF-8", "LANG=en_US.UTF-8")
+	if sp.unpriv {
+		cmd.SysProcAttr = &syscall.SysProcAttr{Credential: &syscall.Credential{Uid: 65534, Gid: 65534}}
+	}
 	var so, se bytes.Buffer
 	cmd.Stdout = &so
 	cmd.Stderr = &se
-	switch stdinMode {
-	case 1:
-		cmd.Stdin = bytes.NewReader(stdin)
-	case 2:
+	var writer *os.File     // what feed writes to
+	var closeAfter []*os.File // closed once the child has ended
+	var childEnd *os.File   // closed in the parent once the child has started
+	switch sp.mode {
+	case dExecPipe:
+		cmd.Stdin = bytes.NewReader(sp.stdin)
+	case dFile:
 		n := atomic.AddInt32(&e.seq, 1)
 		p := filepath.Join(e.root, fmt.Sprintf("stdin-%d", n))
-		_ = os.WriteFile(p, stdin, 0o644)
+		_ = os.WriteFile(p, sp.stdin, 0o644)
 		f, err := os.Open(p)
 		if err == nil {
 			defer f.Close()
 			defer os.Remove(p)
 			cmd.Stdin = f
 		}
+	case dPipe:
+		r, w, err := os.Pipe()
+		if err != nil {
+			return runObs{exit: -3}
+		}
+		cmd.Stdin, childEnd, writer = r, r, w
+	case dSocket:
+		fds, err := syscall.Socketpair(syscall.AF_UNIX, syscall.SOCK_STREAM|syscall.SOCK_CLOEXEC, 0)
+		if err != nil {
+			return runObs{exit: -3}
+		}
+		r, w := os.NewFile(uintptr(fds[0]), "socket"), os.NewFile(uintptr(fds[1]), "socket")
+		cmd.Stdin, childEnd, writer = r, r, w
+	case dPty:
+		m, sl, err := openPty()
+		if err != nil {
+			return runObs{exit: -3}
+		}
+		cmd.Stdin, childEnd, writer = sl, sl, m
+		closeAfter = append(closeAfter, m)
 	}
 	cmd.WaitDelay = time.Second
-	err := cmd.Run()
+	err := cmd.Start()
+	if childEnd != nil {
+		childEnd.Close()
+	}
+	if err == nil {
+		if writer != nil {
+			go sp.feed(writer)
+		}
+		err = cmd.Wait()
+	} else if writer != nil {
+		writer.Close()
+	}
+	for _, f := range closeAfter {
+		f.Close()
+	}
 	o := runObs{stdout: so.Bytes()}
 	if ctx.Err() == context.DeadlineExceeded {
-		if short == 0 {
+		if !sp.expected {
 			atomic.AddInt32(&e.blocked, 1)
 		}
 		o.blocked = true
@@ -325,6 +681,53 @@ func (e *c10env) runBinT(cwd string, argv []string, stdin []byte, stdinMode int,
 	}
 	o.crashed = o.exit == 2 && bytes.Contains(se.Bytes(), []byte("\ngoroutine ")) && bytes.Contains(se.Bytes(), []byte("[running]:"))
 	return o
+}
+
+// setupUnpriv prepares what runs without root's privileges need when the harness is root: a
+// scratch directory every user can search and a copy of the binary in it.  Left empty when that
+// is impossible (the cases with unreadable files are then not generated).
+func (e *c10env) setupUnpriv() {
+	if os.Geteuid() != 0 {
+		return
+	}
+	d, err := os.MkdirTemp(os.TempDir(), "c10pub-")
+	if err != nil {
+		return
+	}
+	ok := false
+	defer func() {
+		if !ok {
+			os.RemoveAll(d)
+		}
+	}()
+	if os.Chmod(d, 0o755) != nil {
+		return
+	}
+	b, err := os.ReadFile(e.c.Bin)
+	if err != nil {
+		return
+	}
+	bin := filepath.Join(d, "decipher")
+	if os.WriteFile(bin, b, 0o755) != nil {
+		return
+	}
+	probe := filepath.Join(d, "probe")
+	if os.WriteFile(probe, []byte("1EC9414C-232A-6B00-B3C8-9E6BDECED846"), 0o644) != nil {
+		return
+	}
+	secret := filepath.Join(d, "secret")
+	if os.WriteFile(secret, []byte("1EC9414C-232A-6B00-B3C8-9E6BDECED846"), 0o644) != nil || os.Chmod(secret, 0) != nil {
+		return
+	}
+	e.pubRoot, e.pubBin = d, bin
+	o1 := e.run(&runSpec{cwd: d, argv: []string{"--", "probe"}, unpriv: true, bin: bin})
+	o2 := e.run(&runSpec{cwd: d, argv: []string{"--", "secret"}, unpriv: true, bin: bin})
+	// the unprivileged run reads the readable file and cannot read the other
+	if o1.exit == 0 && bytes.HasPrefix(o1.stdout, []byte("probe: UUID")) && o2.exit == 0 && len(o2.stdout) == 0 {
+		ok = true
+	} else {
+		e.pubRoot, e.pubBin = "", ""
+	}
 }
 
 // single runs the binary on one path alone (the oracle of the property), cached by path and content.
@@ -418,6 +821,15 @@ func (e *c10env) oracleFor(cwd string, tree []*fnode, arg string, out *SL, seen 
 
 func (e *c10env) runCase(idx int, wc *wcase) (Sx, Sx, error) {
 	base := filepath.Join(e.root, fmt.Sprintf("k%d", idx))
+	unpriv := false
+	if hasNode(wc.tree, needsUnpriv) && os.Geteuid() == 0 {
+		// permission bits mean nothing to root: the scan itself runs as an unprivileged user
+		if e.pubRoot == "" {
+			return nil, nil, nil
+		}
+		unpriv = true
+		base = filepath.Join(e.pubRoot, fmt.Sprintf("k%d", idx))
+	}
 	cwd := filepath.Join(base, "w")
 	tdir := filepath.Join(base, "t")
 	if err := os.MkdirAll(cwd, 0o755); err != nil {
@@ -443,11 +855,18 @@ func (e *c10env) runCase(idx int, wc *wcase) (Sx, Sx, error) {
 			return nil, nil, fmt.Errorf("materialise: %v", err)
 		}
 	}
-	var short time.Duration
-	if wc.waitsOn {
-		short = 8 * time.Second
+	sp := &runSpec{cwd: cwd, argv: wc.argv, stdin: wc.stdin, mode: wc.stdinMode, pieces: wc.pieces, pauses: wc.pauses,
+		lateClose: wc.lateClose, unpriv: unpriv}
+	if unpriv {
+		sp.bin = e.pubBin
 	}
-	obs := e.runBinT(cwd, wc.argv, wc.stdin, wc.stdinMode, short)
+	switch {
+	case wc.waitsOn:
+		sp.deadline, sp.expected = 6*time.Second, true
+	case hasNode(wc.tree, blockingCandidate):
+		sp.deadline = 12 * time.Second
+	}
+	obs := e.run(sp)
 	oracle := SL{}
 	seen := map[string]bool{}
 	for _, a := range wc.argv {
@@ -483,14 +902,26 @@ func (e *c10env) runCase(idx int, wc *wcase) (Sx, Sx, error) {
 	for _, a := range wc.argv {
 		args = append(args, S(a))
 	}
-	input := SL{S(c10Argv0), args, SB(wc.stdin), listSx(wc.tree), oracle}
+	pieces, pauses := SL{}, SL{}
+	for _, n := range wc.pieces {
+		pieces = append(pieces, I(n))
+	}
+	for _, n := range wc.pauses {
+		pauses = append(pauses, I(n))
+	}
+	delivery := SL{I(wc.stdinMode), pieces, pauses, I(wc.lateClose)}
+	input := SL{S(c10Argv0), args, SB(wc.stdin), listSx(wc.tree), oracle, delivery}
 	return input, obs.sx(), nil
 }
 
 // ---------- generators ----------
 
 var c10Names = []string{"a", "B", "_", "é", "-x", "a b", " lead", "~", "z", "A", "b", "aa", "a.pem", "Z", "0",
-	"authorized_keys", "known_hosts", "x.der", "e", "éé", "a-", "a_", "aB", "-", "--", "-r", "\xff", "x=y"}
+	"authorized_keys", "known_hosts", "x.der", "e", "éé", "a-", "a_", "aB", "-", "--", "-r", "\xff", "x=y",
+	"a\nb", "-rf", "\xc3", "a\tb", c10LongName}
+
+// a name of NAME_MAX bytes
+var c10LongName = strings.Repeat("n", 250) + ".nnnn"
 
 func c10Contents(r *Rng) [][]byte {
 	pub, _, _ := ed25519.GenerateKey(r)
@@ -555,15 +986,29 @@ func (g *c10gen) randNode(name string, depth, maxFan int) *fnode {
 		}
 		return dir(name, g.randListing(depth-1, maxFan)...)
 	case x < 75:
-		return lfile(name, g.content())
+		return lfile(name, g.content()).with([]string{"", "rel", "chain"}[g.r.Intn(3)])
 	case x < 82:
-		return ldir(name, g.randListing(0, 2)...)
-	case x < 88:
-		return other(kLinkNone, name)
-	case x < 94:
+		return ldir(name, g.randListing(0, 2)...).with([]string{"", "rel", "chain"}[g.r.Intn(3)])
+	case x < 86:
+		return other(kLinkNone, name).with([]string{"", "rel", "chain"}[g.r.Intn(3)])
+	case x < 90:
 		return other(kFifo, name)
-	default:
+	case x < 93:
 		return other(kSock, name)
+	case x < 94:
+		return reg(name, g.content()).with("hardout")
+	default:
+		// a link whose resolved target is a FIFO, a socket, a character device or a loop
+		switch g.r.Intn(4) {
+		case 0:
+			return lother(name, oFifo, []string{"abs", "rel", "chain"}[g.r.Intn(3)])
+		case 1:
+			return lother(name, oSock, []string{"abs", "rel", "chain"}[g.r.Intn(3)])
+		case 2:
+			return lother(name, oChar, []string{"null", "zero", "chain-null"}[g.r.Intn(3)])
+		default:
+			return lother(name, oLoop, []string{"self", "pair"}[g.r.Intn(2)])
+		}
 	}
 }
 
@@ -600,11 +1045,144 @@ func chain(names []string, bottom []*fnode) *fnode {
 	return cur
 }
 
+type c10Content struct {
+	tag  string
+	data []byte
+	text bool // lines of printable characters: can be typed into a terminal
+}
+
+// c10StdinContents: one input of every kind the tool describes, and junk.
+func c10StdinContents(r *Rng, basic [][]byte) []c10Content {
+	when := time.Date(2024, 2, 29, 12, 0, 0, 0, time.UTC)
+	cert := certWith(r, x509.KeyUsageDigitalSignature, nil, []string{"stdin.example.org"}, nil, when)
+	cert2 := certWith(r, x509.KeyUsageCertSign, nil, []string{"xn--hllo-bpa.example.org"}, nil, when)
+	certPEM := pem.EncodeToMemory(&pem.Block{Type: "CERTIFICATE", Bytes: cert})
+	cert2PEM := pem.EncodeToMemory(&pem.Block{Type: "CERTIFICATE", Bytes: cert2})
+	pubPEM := basic[5]
+	bundle := append(append(append([]byte{}, certPEM...), pubPEM...), cert2PEM...)
+	b64 := []byte(base64.StdEncoding.EncodeToString(cert))
+	var b64lines []byte
+	for i := 0; i < len(b64); i += 64 {
+		j := i + 64
+		if j > len(b64) {
+			j = len(b64)
+		}
+		b64lines = append(append(b64lines, b64[i:j]...), '\n')
+	}
+	jwt := jwtWith(map[string]any{"sub": "alice", "name": "Zoë ☃", "iat": 1700000000}, map[string]any{"alg": "HS256", "typ": "JWT"})
+	return []c10Content{
+		{"pem-bundle", bundle, true},
+		{"pem-cert", certPEM, true},
+		{"der-cert", cert, false},
+		{"base64", b64lines, true},
+		{"jwt", jwt, true},
+		{"jwt-nl", append(append([]byte{}, jwt...), '\n'), true},
+		{"uuid", []byte("123e4567-e89b-12d3-a456-426614174000\n"), true},
+		{"pgp-armor", armoredPGPKey(r, true), true},
+		{"ssh-pub", basic[4], true},
+		{"junk", r.Bytes(777), false},
+		{"utf8-text", []byte("Grüße, мир — 世界 ☃ 𝄞\nnoch eine Zeile: äöü\n"), false},
+		{"empty", []byte{}, true},
+	}
+}
+
+// c10BigContents: inputs of about the given size whose description changes when any part of
+// them is lost: PEM bundles of certificates, and bundles in which large blocks of an unknown
+// type separate the certificates (few lines of output for many bytes of input).
+func c10BigContents(r *Rng, kinds []c10Content, size int) []c10Content {
+	certPEM := kinds[1].data
+	var out []c10Content
+	if size <= 100<<10 {
+		var b []byte
+		for len(b) < size {
+			b = append(b, certPEM...)
+		}
+		out = append(out, c10Content{tag: fmt.Sprintf("certs-%dk", size>>10), data: b, text: true})
+	}
+	var b []byte
+	for len(b) < size {
+		b = append(b, certPEM...)
+		b = append(b, pem.EncodeToMemory(&pem.Block{Type: "FILLER", Bytes: r.Bytes(20000 + r.Intn(30000))})...)
+	}
+	b = append(b, kinds[0].data...)
+	out = append(out, c10Content{tag: fmt.Sprintf("mixed-%dk", size>>10), data: b, text: true})
+	return out
+}
+
+// evenPieces cuts n bytes into pieces of the given size (the last one shorter).
+func evenPieces(n, size int) []int {
+	var out []int
+	for n > 0 {
+		k := size
+		if k > n {
+			k = n
+		}
+		out = append(out, k)
+		n -= k
+	}
+	return out
+}
+
+// randomPieces cuts the content at up to k-1 places.  With nasty set, the places are chosen among
+// those where a piece ends inside something: inside the first line, inside a base64 quantum
+// (offset in its line not a multiple of 4), inside a multi-byte UTF-8 sequence, just before a
+// line feed; otherwise anywhere.
+func randomPieces(r *Rng, ct []byte, k int, nasty bool) []int {
+	if len(ct) < 2 {
+		return []int{len(ct)}
+	}
+	var cand []int
+	if nasty {
+		lineStart := 0
+		for i := 1; i < len(ct); i++ {
+			if ct[i-1] == '\n' {
+				lineStart = i
+			}
+			switch {
+			case ct[i]&0xC0 == 0x80, // between the bytes of a multi-byte sequence
+				(i-lineStart)%4 != 0, // inside a base64 quantum
+				ct[i] == '\n',
+				lineStart == 0: // inside the first line ("-----BEGIN ...")
+				cand = append(cand, i)
+			}
+		}
+	}
+	cuts := map[int]bool{}
+	for i := 0; i < k-1; i++ {
+		if len(cand) > 0 {
+			cuts[cand[r.Intn(len(cand))]] = true
+		} else {
+			cuts[1+r.Intn(len(ct)-1)] = true
+		}
+	}
+	var out []int
+	prev := 0
+	for i := 1; i < len(ct); i++ {
+		if cuts[i] {
+			out = append(out, i-prev)
+			prev = i
+		}
+	}
+	return append(out, len(ct)-prev)
+}
+
+func randomPauses(r *Rng, n, lo, hi int) []int {
+	out := make([]int, n)
+	for i := range out {
+		out[i] = lo + r.Intn(hi-lo+1)
+	}
+	return out
+}
+
 func genC10(c *Ctx) {
 	root := filepath.Join(c.Tmp, "c10")
 	_ = os.MkdirAll(root, 0o755)
 	defer os.RemoveAll(root)
 	e := &c10env{c: c, root: root, cache: map[string][2]Sx{}}
+	e.setupUnpriv()
+	if e.pubRoot != "" {
+		defer os.RemoveAll(e.pubRoot)
+	}
 	g := &c10gen{r: c.R}
 	g.contents = c10Contents(c.R)
 	uuid := g.contents[2]
@@ -673,27 +1251,88 @@ func genC10(c *Ctx) {
 	}
 
 	// ---- every entry kind at first / middle / last position, directly and one level down ----
-	kinds := []struct {
-		tag string
-		mk  func(name string) *fnode
-	}{
-		{"reg", func(n string) *fnode { return reg(n, uuid) }},
-		{"empty", func(n string) *fnode { return reg(n, nil) }},
-		{"dir", func(n string) *fnode { return dir(n, reg("in", hello), reg("In", der)) }},
-		{"emptydir", func(n string) *fnode { return dir(n) }},
-		{"linkfile", func(n string) *fnode { return lfile(n, uuid) }},
-		{"linkdir", func(n string) *fnode { return ldir(n, reg("inner", hello)) }},
-		{"linknone", func(n string) *fnode { return other(kLinkNone, n) }},
-		{"fifo", func(n string) *fnode { return other(kFifo, n) }},
-		{"sock", func(n string) *fnode { return other(kSock, n) }},
+	// (the listing always holds the regular files y, b, M (a UUID) and, for the entries that lead to
+	// an entry of the same directory, the FIFO P.fifo, the socket Q.sock and the directory R.dir)
+	type entryKind struct {
+		tag  string
+		sibs bool // needs the extra siblings
+		mk   func(name string) *fnode
+	}
+	kinds := []entryKind{
+		{"reg", false, func(n string) *fnode { return reg(n, uuid) }},
+		{"empty", false, func(n string) *fnode { return reg(n, nil) }},
+		{"dir", false, func(n string) *fnode { return dir(n, reg("in", hello), reg("In", der)) }},
+		{"emptydir", false, func(n string) *fnode { return dir(n) }},
+		{"linkfile", false, func(n string) *fnode { return lfile(n, uuid) }},
+		{"linkdir", false, func(n string) *fnode { return ldir(n, reg("inner", hello)) }},
+		{"linknone", false, func(n string) *fnode { return other(kLinkNone, n) }},
+		{"fifo", false, func(n string) *fnode { return other(kFifo, n) }},
+		{"sock", false, func(n string) *fnode { return other(kSock, n) }},
+		// a second name of a regular file of the same directory / of a file outside the tree
+		{"hardlink", false, func(n string) *fnode { return reg(n, uuid).with("hard:M") }},
+		{"hardlink-out", false, func(n string) *fnode { return reg(n, der).with("hardout") }},
+		// links to a regular file: relative target, through two more links, to an entry of the same directory
+		{"linkfile-rel", false, func(n string) *fnode { return lfile(n, uuid).with("rel") }},
+		{"linkfile-chain", false, func(n string) *fnode { return lfile(n, der).with("chain") }},
+		{"linkfile-sib", false, func(n string) *fnode { return lfile(n, uuid).with("sib:M") }},
+		// links to a directory (never followed by a scan)
+		{"linkdir-rel", false, func(n string) *fnode { return ldir(n, reg("inner", hello)).with("rel") }},
+		{"linkdir-chain", false, func(n string) *fnode { return ldir(n, reg("inner", hello)).with("chain") }},
+		{"linkdir-up", false, func(n string) *fnode { return ldir(n).with("up") }},
+		{"linkdir-sib", true, func(n string) *fnode { return ldir(n, reg("inner", hello)).with("sib:R.dir") }},
+		// dangling
+		{"linknone-rel", false, func(n string) *fnode { return other(kLinkNone, n).with("rel") }},
+		{"linknone-chain", false, func(n string) *fnode { return other(kLinkNone, n).with("chain") }},
+		// links to a FIFO: a scan that opens what the link leads to waits for ever
+		{"linkfifo", false, func(n string) *fnode { return lother(n, oFifo, "abs") }},
+		{"linkfifo-rel", false, func(n string) *fnode { return lother(n, oFifo, "rel") }},
+		{"linkfifo-chain", false, func(n string) *fnode { return lother(n, oFifo, "chain") }},
+		{"linkfifo-sib", true, func(n string) *fnode { return lother(n, oFifo, "sib:P.fifo") }},
+		// links to a socket
+		{"linksock", false, func(n string) *fnode { return lother(n, oSock, "abs") }},
+		{"linksock-chain", false, func(n string) *fnode { return lother(n, oSock, "chain") }},
+		{"linksock-sib", true, func(n string) *fnode { return lother(n, oSock, "sib:Q.sock") }},
+		// links to character devices: /dev/null delivers nothing, /dev/zero never ends
+		{"linknull", false, func(n string) *fnode { return lother(n, oChar, "null") }},
+		{"linkzero", false, func(n string) *fnode { return lother(n, oChar, "zero") }},
+		{"linknull-chain", false, func(n string) *fnode { return lother(n, oChar, "chain-null") }},
+		// loops of links
+		{"loop-self", false, func(n string) *fnode { return lother(n, oLoop, "self") }},
+		{"loop-pair", false, func(n string) *fnode { return lother(n, oLoop, "pair") }},
+		// no read permission (the scan runs without privileges)
+		{"noperm", false, func(n string) *fnode { return other(kNoPerm, n) }},
+		{"link-noperm", false, func(n string) *fnode { return lother(n, oNoPerm, "abs") }},
 	}
 	for _, k := range kinds {
-		for pi, pname := range []string{"0first", "mid", "~last"} {
-			listing := []*fnode{reg("y", der), k.mk(pname), reg("b", hello), reg("M", uuid)}
-			_ = pi
+		for _, pname := range []string{"0first", "mid", "~last"} {
+			mkListing := func() []*fnode {
+				l := []*fnode{reg("y", der), k.mk(pname), reg("b", hello), reg("M", uuid)}
+				if k.sibs {
+					l = append(l, other(kFifo, "P.fifo"), other(kSock, "Q.sock"), dir("R.dir", reg("inner", hello)))
+				}
+				return l
+			}
 			tag := fmt.Sprintf("walk:pos-%s", k.tag)
-			add(tag, []*fnode{dir("d", listing...)}, "-r", "d")
-			add(tag+"-nested", []*fnode{dir("d", reg("z", der), dir("s", listing...), reg("A", hello))}, "-r", "d")
+			add(tag, []*fnode{dir("d", mkListing()...)}, "-r", "d")
+			add(tag+"-nested", []*fnode{dir("d", reg("z", der), dir("s", mkListing()...), reg("A", hello))}, "-r", "d")
+		}
+	}
+	// the same entry kinds in the scanned directory itself and under unusual names, with
+	// regular files on both sides
+	nasty := []string{"a b", "a\nb", "-x", "--", "-r", "\xff\xfe", c10LongName, " ", "é", "a\tb", "*", "..."}
+	for i, nm := range nasty {
+		for j, k := range kinds {
+			if (i+j)%5 != 0 && !c.Thorough() {
+				continue
+			}
+			l := []*fnode{reg(" ", hello), k.mk(nm + "!"), reg("~~", uuid), reg("M", uuid)}
+			if k.sibs {
+				l = append(l, other(kFifo, "P.fifo"), other(kSock, "Q.sock"), dir("R.dir", reg("inner", hello)))
+			}
+			if len(nm)+1 > 255 {
+				l[1].name = nm[:254] + "!"
+			}
+			add("walk:name-"+k.tag, l, "-r", ".")
 		}
 	}
 
@@ -705,6 +1344,8 @@ func genC10(c *Ctx) {
 			dir("d2", reg("k", uuid)), dir("empty"),
 			lfile("lf", uuid), ldir("ld", reg("inner", hello), dir("s", reg("deep", der))), other(kLinkNone, "ln"),
 			other(kSock, "sock"),
+			lother("lnull", oChar, "null"), lother("lsock", oSock, "chain"), lother("loop", oLoop, "self"),
+			reg("hard", uuid).with("hard:f1"), lfile("lchain", der).with("chain"), lfile("lrel", uuid).with("sib:f1"),
 		}
 	}
 	argLists := [][]string{
@@ -719,6 +1360,10 @@ func genC10(c *Ctx) {
 		{"-r", "ld"}, {"ld"}, {"-r", "ld/"}, {"ld/inner"}, {"lf"}, {"-r", "lf"}, {"ln"}, {"-r", "ln"}, {"f1", "ln", "f2"},
 		{"sock"}, {"-r", "sock", "f1"}, {"-r", "empty"}, {"empty"}, {"-r", "d1", "d1"}, {"-r", "empty", "d2", "empty"},
 		{"-r", "d1/nonexistent"}, {"f1/x"}, {"-r", "d2", "f1", "d1", "lf", "ld"},
+		// links named as arguments: to /dev/null (opened: nothing to read), to a socket (cannot be opened),
+		// to themselves (refused like a nonexistent path), chains and second names of regular files
+		{"lnull"}, {"-r", "lnull", "f1"}, {"f1", "lnull", "f2"}, {"lsock"}, {"f1", "lsock", "f2"}, {"loop"}, {"f1", "loop", "f2"},
+		{"-r", "loop", "d1"}, {"hard"}, {"f1", "hard"}, {"lchain"}, {"-r", "lchain", "f1"}, {"lrel", "f1"},
 	}
 	for _, a := range argLists {
 		add("walk:args", std(), a...)
@@ -728,17 +1373,85 @@ func genC10(c *Ctx) {
 	fifoStd := func() []*fnode { return append(std(), other(kFifo, "fifo")) }
 	add("walk:fifo-arg", fifoStd(), "f1", "fifo", "f2").waitsOn = true
 	add("walk:fifo-arg", fifoStd(), "-r", "d1", "fifo", "d2").waitsOn = true
+	// ... or through a link, or a link to a link
+	lfifoStd := func(how string) []*fnode { return append(std(), lother("lfifo", oFifo, how)) }
+	add("walk:fifo-arg", lfifoStd("abs"), "f1", "lfifo", "f2").waitsOn = true
+	add("walk:fifo-arg", lfifoStd("chain"), "-r", "d1", "lfifo", "d2").waitsOn = true
 
 	// ---- standard input ----
+	// every content kind, delivered the ways real producers deliver: as a regular file, through
+	// os/exec's pipe, through a pipe written in 2..20 pieces with pauses of 1..50 ms (pieces ending
+	// anywhere: inside a PEM line, a base64 quantum, a multi-byte sequence), through a pipe that is
+	// closed late, through a socket pair, through a pseudo-terminal; named by no argument, "-", ""
+	stdinArgv := [][]string{{}, {"-"}, {"-r", "-"}, {"", "f1"}, {"-", "f1"}, {"-r"}}
+	nStdin := 0
+	addStdin := func(tag string, ct []byte, mode int) *wcase {
+		wc := add("stdin:"+tag, []*fnode{reg("f1", uuid)}, stdinArgv[nStdin%len(stdinArgv)]...)
+		nStdin++
+		wc.stdin = ct
+		wc.stdinMode = mode
+		if len(ct) > 32<<10 {
+			// (what the model is told about large inputs: pieces of at most 32 KiB)
+			wc.pieces = evenPieces(len(ct), 32<<10)
+		}
+		return wc
+	}
 	for i, ct := range g.contents {
-		for mode := 1; mode <= 2; mode++ {
-			argv := [][]string{{}, {"-"}, {"-r", "-"}, {"", "f1"}}[(i+mode)%4]
-			wc := add(fmt.Sprintf("stdin:%s", []string{"", "pipe", "file"}[mode]), []*fnode{reg("f1", uuid)}, argv...)
-			wc.stdin = ct
-			wc.stdinMode = mode
+		for mode := dExecPipe; mode <= dFile; mode++ {
+			_ = i
+			addStdin([]string{"", "pipe", "file"}[mode], ct, mode)
 		}
 	}
 	add("stdin:devnull", []*fnode{reg("f1", uuid)})
+	kindsOfContent := c10StdinContents(c.R, g.contents)
+	nPer := 2
+	if c.Thorough() {
+		nPer = 12
+	}
+	for _, k := range kindsOfContent {
+		ct := k.data
+		addStdin("file-"+k.tag, ct, dFile)
+		addStdin("pipe-"+k.tag, ct, dExecPipe)
+		for i := 0; i < nPer; i++ {
+			wc := addStdin("pieces-"+k.tag, ct, dPipe)
+			wc.pieces = randomPieces(c.R, ct, 2+c.R.Intn(19), i%2 == 0)
+			wc.pauses = randomPauses(c.R, len(wc.pieces), 1, 50)
+		}
+		wc := addStdin("lateclose-"+k.tag, ct, dPipe)
+		wc.pieces, wc.pauses, wc.lateClose = []int{len(ct)}, []int{c.R.Intn(30)}, 150+c.R.Intn(250)
+		wc = addStdin("socket-"+k.tag, ct, dSocket)
+		wc.pieces = randomPieces(c.R, ct, 2+c.R.Intn(8), true)
+		wc.pauses = randomPauses(c.R, len(wc.pieces), 1, 40)
+		if k.text && ptyAvailable() {
+			wc = addStdin("pty-"+k.tag, ct, dPty)
+			wc.pieces = randomPieces(c.R, ct, 2+c.R.Intn(6), false)
+			wc.pauses = randomPauses(c.R, len(wc.pieces), 1, 30)
+		}
+	}
+	// inputs larger than the pipe buffer, with a slow and with a fast writer
+	sizes := []int{64<<10 + 1, 300 << 10, 1 << 20}
+	if c.Thorough() {
+		sizes = append(sizes, 3<<20, 5<<20+77)
+	}
+	for _, size := range sizes {
+		for _, big := range c10BigContents(c.R, kindsOfContent, size) {
+			for _, mode := range []int{dPipe, dSocket} {
+				if mode == dSocket && size != 1<<20 {
+					continue
+				}
+				tag := []string{dPipe: "pipe", dSocket: "socket"}[mode]
+				// fast: pieces of 64 KiB written back to back; slow: smaller pieces with pauses
+				wc := addStdin(fmt.Sprintf("big-fast-%s-%s", tag, big.tag), big.data, mode)
+				wc.pieces = evenPieces(len(big.data), 64<<10)
+				wc = addStdin(fmt.Sprintf("big-slow-%s-%s", tag, big.tag), big.data, mode)
+				wc.pieces = evenPieces(len(big.data), 7000+c.R.Intn(50000))
+				wc.pauses = randomPauses(c.R, len(wc.pieces), 0, 4)
+				wc.lateClose = c.R.Intn(100)
+			}
+			addStdin("big-file-"+big.tag, big.data, dFile)
+			addStdin("big-execpipe-"+big.tag, big.data, dExecPipe)
+		}
+	}
 
 	// ---- random trees ----
 	nTrees := 260
@@ -763,7 +1476,8 @@ func genC10(c *Ctx) {
 			argv = append(argv, "--")
 			for _, n := range listing {
 				// (not FIFOs: one named as an argument makes the run wait, see walk:fifo-arg)
-				if g.r.Intn(2) == 0 && n.kind != kFifo {
+				// (nor links to FIFOs; nor links to /dev/zero, which as an argument is read up to the cap)
+				if g.r.Intn(2) == 0 && n.kind != kFifo && !(n.kind == kLinkOther && (n.target == oFifo || n.how == "zero")) {
 					argv = append(argv, n.name)
 				}
 			}
@@ -794,7 +1508,8 @@ func genC10(c *Ctx) {
 		add("walk:wide", []*fnode{dir("w", listing...)}, "-r", "w")
 	}
 	// malformed argument vectors: random pieces
-	pieces := []string{"-r", "--", "-", "", "f1", "d1", "-x", "-r=1", "-r=x", "nonexistent", "d1/", "./d1", "lf", "ld", "ln", "--r", "-version=0", "d2", "empty", "f2", "-h"}
+	pieces := []string{"-r", "--", "-", "", "f1", "d1", "-x", "-r=1", "-r=x", "nonexistent", "d1/", "./d1", "lf", "ld", "ln", "--r", "-version=0", "d2", "empty", "f2", "-h",
+		"lnull", "loop", "hard", "lchain", "lsock"}
 	nArgs := 60
 	if c.Thorough() {
 		nArgs = 1500
@@ -833,6 +1548,9 @@ func genC10(c *Ctx) {
 		if o.err != nil {
 			fmt.Fprintf(os.Stderr, "C10: case %d (%s): %v\n", i, cases[i].kind, o.err)
 			os.Exit(1)
+		}
+		if o.in == nil {
+			continue // the case needs a run without privileges and none is possible here
 		}
 		c.Emit(cases[i].kind, o.in, o.impl)
 	}
